@@ -49,30 +49,8 @@ def gen_cases(ck, n_progs, size_lo, size_hi):
     return progs
 
 
-def parse_out(text):
-    res = {}
-    for line in text.splitlines():
-        parts = line.split(" ", 2)
-        if len(parts) < 3:
-            continue
-        res.setdefault((parts[0], int(parts[1])), []).append(parts[2])
-    return res
-
-
-def value_ok(impl_hex, mline):
-    """mline = model 'V f32opt f32unopt ref64 M S'.  Returns (ok, skipped)."""
-    f = mline.split()
-    ref, mx, sens = h2d(f[3]), h2d(f[4]), h2d(f[5])
-    v = h2f(impl_hex)
-    import math
-    if not (math.isfinite(ref) and math.isfinite(mx) and math.isfinite(sens)) or mx > 1e6:
-        return True, True
-    if sens > 1e-3 * (1 + abs(ref)):         # ill-conditioned / near a discontinuity
-        return True, True
-    if not math.isfinite(v):
-        return False, False
-    tol = 2e-4 * (1.0 + mx) + 200 * sens
-    return abs(v - ref) <= tol, False
+parse_out = exprlib.parse_out
+value_ok = exprlib.value_ok
 
 
 def run(replay=None):
